@@ -355,16 +355,17 @@ Proof.
 Qed.
 
 (* closed rings built by appending the first vertex (GeoRing.linear_rings) *)
-Lemma closedb_app_first : forall o, closedb (o ++ firstn 1 o) = true.
+Lemma closedb_cons_app : forall a u, closedb ((a :: u) ++ [a]) = true.
 Proof.
-  intros [|a t]; [reflexivity|]. cbn [firstn]. change ((a :: t) ++ [a]) with (a :: (t ++ [a])).
-  unfold closedb. change (a :: t ++ [a]) with ((a :: t) ++ [a]). rewrite last_app_single. apply coord_eqb_refl.
+  intros a u. change ((a :: u) ++ [a]) with (a :: (u ++ [a])). unfold closedb.
+  change (a :: u ++ [a]) with ((a :: u) ++ [a]). rewrite last_app_single. apply coord_eqb_refl.
 Qed.
+
+Lemma closedb_app_first : forall o, closedb (o ++ firstn 1 o) = true.
+Proof. intros [|a t]; [reflexivity|]. cbn [firstn]. apply closedb_cons_app. Qed.
 
 Lemma closedb_wedge : forall o i, o <> [] -> closedb (o ++ rev i ++ firstn 1 o) = true.
 Proof.
   intros [|a t] i H; [contradiction|]. cbn [firstn]. rewrite app_assoc.
-  destruct ((a :: t) ++ rev i) as [|b u] eqn:E; [discriminate|].
-  inversion E; subst b. unfold closedb. change ((a :: u) ++ [a]) with (a :: (u ++ [a])).
-  change (a :: u ++ [a]) with ((a :: u) ++ [a]). rewrite last_app_single. apply coord_eqb_refl.
+  change ((a :: t) ++ rev i) with (a :: (t ++ rev i)). apply closedb_cons_app.
 Qed.
